@@ -270,16 +270,24 @@ func (sc *scen) decPre() {
 
 // drainHeld completes what the driving goroutine still holds (called from OnDrain).
 func (sc *scen) drainHeld() {
+	var rest []core.Listener
 	for i := int(sc.releasedPre.Load()); i < len(sc.preHeld); i++ {
 		if i < len(sc.releases) {
 			continue // a releaser task owns it (it finishes during drain)
 		}
-		l := sc.preHeld[i]
-		if RootCall(func() { l.OnIgnore() }) {
+		rest = append(rest, sc.preHeld[i])
+	}
+	if len(rest) == 0 {
+		return
+	}
+	// completed by a task (not by the driving goroutine): a completion must never be abandoned half-way
+	sc.s.Go("drain-releaser", func(tk *Task) {
+		for _, l := range rest {
 			sc.st.Out.Add(-1)
 			sc.decPre()
+			l.OnIgnore()
 		}
-	}
+	})
 }
 
 // conservation checks every layer against the harness ledger (stable points only).
